@@ -3,6 +3,7 @@ from .. import charset, panics
 from ..callgraph import norm
 from ..common import callgraph, div_by_nonzero_const, impl_methods, body_by_name, callee_names
 from ..facts import callee, op_const, op_local
+from ..scans import closure_of_local, found_rejects, only_err_returns, scan_of
 
 CONFIGS_QUICK = ["K1", "K2"]
 CONFIGS_THOROUGH = ["K1", "K2"]
@@ -138,51 +139,15 @@ def parser_key_alphabet(prog, kv):
     return s, how
 
 
-def closure_of_local(prog, body, local):
-    for bb, i, s in body.stmts():
-        if s["k"] == "assign" and s["place"]["l"] == local and not s["place"]["p"] and s["rv"]["k"] == "agg" \
-                and s["rv"]["agg"] == "closure":
-            return prog.bodies.get(s["rv"]["def"])
-    return None
-
-
 def tag_valid_alphabet(prog, tf):
-    """Tag::try_from: idiom `raw.char_indices().find(|c| !valid(c))` whose Some edge returns Err;
-    valid alphabet = complement of the closure's accept set.  Also reports the empty check."""
-    from ..cfg import Cfg
-    finds = []
-    for bb, t in tf.calls():
-        if "core::iter::traits::iterator::Iterator::find" in callee_names(t) or \
-                "core::iter::traits::iterator::Iterator::position" in callee_names(t) or \
-                "core::iter::traits::iterator::Iterator::any" in callee_names(t):
-            clos = None
-            for a in t["args"]:
-                l = op_local(a)
-                if l is not None and "closure@" in tf.local_ty(l):
-                    clos = closure_of_local(prog, tf, l)
-            if clos is not None:
-                finds.append((bb, t, clos))
-    if len(finds) != 1:
-        raise charset.Opaque("expected one find/position/any over the characters in Tag::try_from, found %d" % len(finds))
-    bb, t, clos = finds[0]
-    # polarity: the `found` outcome must lead only to Err returns
-    res = t["dest"]["l"]
-    nxt = t["target"]
-    sw = tf.blocks[nxt]["t"]
-    found_edge = None
-    if sw["k"] == "switch":
-        # `discriminant(res)` -> Some == 1  (or bool for any())
-        ones = [b for v, b in sw["targets"] if v == 1]
-        if ones:
-            found_edge = ones[0]
-        elif tf.local_ty(res) == "bool":
-            found_edge = sw["otherwise"]
-    if found_edge is None:
-        raise charset.Opaque("cannot see how the result of the character scan is tested")
-    if not only_err_returns(tf, found_edge):
+    """Tag::try_from: one character scan over the input (`find/position/any/all` with a closure, or a `for` loop) whose
+    hit returns Err; valid alphabet = complement of the hit set.  Also reports the empty check."""
+    sc = scan_of(prog, tf)
+    if not found_rejects(tf, sc):
         raise charset.Opaque("the 'invalid character found' edge does not lead to an Err return only")
-    bad, width, _ = charset.accept_set(prog, clos)
-    valid = charset.complement(bad, width)
+    if not sc["receiver_ok"]:
+        raise charset.Opaque("the scan does not run over the tag name itself (via %s)" % sc["receiver_via"])
+    valid = charset.complement(sc["bad"], sc["width"])
     # empty-string rejection: is_empty test whose true edge returns Err
     nonempty = False
     for bb2, t2 in tf.calls():
@@ -191,28 +156,6 @@ def tag_valid_alphabet(prog, tf):
             if sw2["k"] == "switch" and only_err_returns(tf, sw2["otherwise"]):
                 nonempty = True
     return valid, nonempty
-
-
-def only_err_returns(body, start):
-    """Every return reachable from `start` (not re-entering) assigns _0 = Result::Err on the way."""
-    from ..cfg import reach
-    succs = body.succs()
-    # blocks that construct Ok into _0
-    ok_blocks = set()
-    err_blocks = set()
-    for bb, i, s in body.stmts():
-        if s["k"] == "assign" and s["place"]["l"] == 0 and not s["place"]["p"] and s["rv"]["k"] == "agg" \
-                and s["rv"].get("adt_name", "").endswith("result::Result"):
-            (ok_blocks if s["rv"]["variant"] == "Ok" else err_blocks).add(bb)
-    region = reach(succs, [start])
-    if region & ok_blocks:
-        return False
-    # must reach a return at all and pass an Err construction: every path from start to return
-    rets = [b for b in region if body.blocks[b]["t"]["k"] == "return"]
-    if not rets:
-        return False
-    no_err = reach(succs, [start], avoid=err_blocks)
-    return not any(body.blocks[b]["t"]["k"] == "return" for b in no_err) or start in err_blocks
 
 
 def run(rep, progs, tier):
